@@ -201,8 +201,11 @@ func (k Keeper) AppendPriceTR(ctx sdk.Context, tokenID uint64, priceTR types.Pri
 	store := k.getPriceTRStore(ctx, tokenID)
 	b := k.cdc.MustMarshal(&priceTR)
 	store.Set(types.PricesRoundKey(nextRoundID), b)
-	if expiredRoundID := nextRoundID - agc.GetParamsMaxSizePrices(); expiredRoundID > 0 {
-		store.Delete(types.PricesRoundKey(expiredRoundID))
+	if maxSize := agc.GetParamsMaxSizePrices(); nextRoundID > maxSize {
+		// drop the expired round, and the ones before it that are left over when MaxSizePrices has been lowered
+		for expiredRoundID := nextRoundID - maxSize; expiredRoundID > 0 && store.Has(types.PricesRoundKey(expiredRoundID)); expiredRoundID-- {
+			store.Delete(types.PricesRoundKey(expiredRoundID))
+		}
 	}
 	roundID := k.IncreaseNextRoundID(ctx, tokenID)
 
